@@ -69,6 +69,10 @@ FIXED = [
     ("L0: clr tgt\nsub #tgt-L0, r1\ntgt = L1\n.word 0\nL1: .word tgt\n", ["f", "f", "f", "f", "f", "a"]),
     # displacements written as differences / sums directly before the register
     ("L0: mov L1-2(r1), r0\nL1: clr @L0-4(r2)\nmov 6+L1(r3), L0\n", ["f", "a", "f", "a", "f", "a", "f"]),
+    # constant-first sums over the very first label (a bare base promise while '.link' is still to come) and over an alias of it
+    ("L0: mov #4+L0, r0\n.word 6+L0, 2+al, al+2\nal = L0\n", ["f", "a", "a", "a", "a"]),
+    # references just below the first label: at base 0 they wrap to the top of memory, in every operand position alike
+    ("L0: clr @#L0-2\nmov #L0-2, r1\n.word L0-2\nmov @#L0-4, @#L0-6\n", ["f", "a", "f", "a", "a", "f", "a", "a"]),
     # a 32-bit cell holding an address: the only absolute reference that still assembles when the address passes 0o177777
     ("L0: nop\nL1: .dword L1, L0 + 4\nbr L0\n", ["f", "dh", "dl", "dh", "dl", "f"]),
 ]
